@@ -2,7 +2,8 @@
    Model: Node/Node.v — the registry (by_pid, by_name), process records with links, monitors and the messages handed
    to the handler, termination with propagate_exit_signals; after fix commit 84e81b9.  One operation = one API call
    run to quiescence.  The correspondence run drives a real Node with instrumented processes. *)
-From EDP Require Import Base.Bytes Term.Term Order.Cmp Codec.Decode Dist.Control Node.Node Node.NodeFacts.
+From EDP Require Import Base.Bytes Term.Term Order.Cmp Codec.Decode Dist.Control Node.Node Node.NodeFacts Gen.LockScope.
+From EDP Require Conc.Interleave Conc.RegisterConc.
 Open Scope N_scope.
 
 (* accepted for a live process: handed to it exactly once, after everything it received before; nobody else is
@@ -57,5 +58,26 @@ Example C18_example :
   (exists r, map pevents (n_procs st) = [[MExit (p 1) (TAtom n_error); MMonitorExit (p 1) r (TAtom n_error)]]) /\
   fst (step cfg st (ORegister [97] (p 2))) <> st.
 Proof. cbv zeta. split; [vm_compute; reflexivity|]. split; [vm_compute; reflexivity|]. split; [eexists; vm_compute; reflexivity|]. vm_compute. discriminate. Qed.
+
+(* ---- the name table under any interleaving ----
+   register looks the name up and inserts it if free, unregister removes it; each under the table's write lock for its
+   whole body (for register the translator checks this on the source).  With the lookup and the insertion as separate
+   atomic steps, any number of tasks, any names and EVERY schedule: the table and the results handed out are those of
+   the sequential table fed the granted operations in grant order, so at no moment does a name belong to two processes *)
+Theorem C18_registry_sequential_under_any_schedule : forall prog schedule s0, RegisterConc.all_reg prog ->
+  exists ops, (length ops <= length schedule)%nat /\
+    RegisterConc.names (RegisterConc.exec (Interleave.trace _ (Interleave.run _ (Interleave.start _ prog) schedule)) s0) =
+      fst (fold_left RegisterConc.seq_step ops (RegisterConc.names s0, RegisterConc.results s0)) /\
+    RegisterConc.results (RegisterConc.exec (Interleave.trace _ (Interleave.run _ (Interleave.start _ prog) schedule)) s0) =
+      snd (fold_left RegisterConc.seq_step ops (RegisterConc.names s0, RegisterConc.results s0)).
+Proof. exact RegisterConc.registry_is_sequential. Qed.
+
+Theorem C18_one_process_per_name_under_any_schedule : forall prog schedule, RegisterConc.all_reg prog ->
+  RegisterConc.functional (RegisterConc.names (RegisterConc.exec (Interleave.trace _ (Interleave.run _ (Interleave.start _ prog) schedule))
+                                                 {| RegisterConc.names := []; RegisterConc.found := false; RegisterConc.results := [] |})).
+Proof. exact RegisterConc.registry_functional. Qed.
+
+Theorem C18_register_holds_its_lock : forallb snd lock_sites = true.
+Proof. vm_compute. reflexivity. Qed.
 
 Check C18_exit_notices.
